@@ -224,7 +224,31 @@ def gen_case(rng, idx, big=False):
             "limits": limits}
 
 
+def gen_merge_case(rng, idx):
+    """out-of-domain stream: Script::Merge driven directly (all six types, tips, repeated syllables,
+    syllables outside the syllabary).  Only model agreement is checked on it."""
+    letters = rng.sample(ASCII_LETTERS, rng.randint(2, 4))
+    def word(lo, hi):
+        return "".join(rng.choice(letters) for _ in range(rng.randint(lo, hi)))
+    pool = [word(1, 3) for _ in range(rng.randint(2, 5))]
+    keys = [word(1, 3) for _ in range(rng.randint(1, 4))]
+    def props(maxpen):
+        tips = word(1, 4) if rng.random() < 0.4 else ""
+        return "%d:%d:%s" % (rng.randint(0, 5), -rng.randint(0, maxpen), hx(tips.encode()))
+    ops = []
+    for _ in range(rng.randint(1, 8)):
+        v = ",".join("%s:%s" % (hx(rng.choice(pool).encode()), props(3)) for _ in range(rng.randint(1, 3)))
+        ops.append("%s|%s|%s" % (hx(rng.choice(keys).encode()), props(1), v))
+    syls = [s for s in pool if rng.random() < 0.8] or [pool[0]]
+    qs = {word(1, 3) for _ in range(3)}
+    return {"id": "m%d" % idx, "utf8": False, "merge": "M:" + ";".join(ops), "syls": [s.encode() for s in syls],
+            "rules": [], "queries": sorted(q.encode() for q in qs), "limits": sorted({0, 1, rng.randint(2, 5)})}
+
+
 def case_line(c):
+    if c.get("merge"):
+        return "%s %s %s %s %s" % (c["id"], ",".join(hx(s) for s in c["syls"]), c["merge"],
+                                   ",".join(hx(q) for q in c["queries"]) or "_", ",".join(str(l) for l in c["limits"]))
     return "%s %s %s %s %s" % (
         c["id"], ",".join(hx(s) for s in c["syls"]) or "_",
         ";".join(hx(f) for _, f in c["rules"]) or "_",
@@ -461,6 +485,7 @@ def run(ctx):
     cases = corpus_cases()
     ncorpus = len(cases)
     cases += [gen_case(rng, i, big=(ctx.tier == "thorough" and i % 5 == 4)) for i in range(ncases)]
+    cases += [gen_merge_case(rng, i) for i in range(ncases // 7)]
     ncases = len(cases)
     work = ctx.scratch("c09")
     rc, out, err = vlib.sh2([exe, work], stdin="\n".join(case_line(c) for c in cases) + "\n", timeout=1500,
@@ -482,7 +507,8 @@ def run(ctx):
 
     # --- model input = the case + the sampled effects; queries = the ones the harness answered
     feed, fed, thrown_bad = [], [], []
-    stats = {"cases": 0, "loadfail": 0, "regex_complexity_discarded": 0, "utf8": 0, "rules": {k: 0 for k in KINDS}, "rule_applied": 0, "rule_not_applied": 0,
+    stats = {"direct_merge_cases": 0, "direct_merge_queries": 0, "direct_merge_types": {}, "direct_merge_tips": 0,
+             "cases": 0, "loadfail": 0, "regex_complexity_discarded": 0, "utf8": 0, "rules": {k: 0 for k in KINDS}, "rule_applied": 0, "rule_not_applied": 0,
              "erased_to_empty": 0, "xform_to_empty": 0, "multi_syllable_spellings": 0, "same_syllable_collisions": 0,
              "algebra_not_applied": 0, "script_erased_entirely": 0, "queries": 0, "query_is_key": 0, "query_nonkey": 0,
              "expand_cut_by_limit": 0, "high_byte_alphabets": 0, "max_penalties": 0, "types_seen": {}}
@@ -496,7 +522,7 @@ def run(ctx):
                 if d["throws"] != "apply=0":
                     thrown_bad.append(c)
             continue
-        samples = [d["samples"][r] for r in range(len(c["rules"]))]
+        samples = [c["merge"]] if c.get("merge") else [d["samples"][r] for r in range(len(c["rules"]))]
         qs = [q[0] for q in d["q"]]
         feed.append("%s %s %s %s %s" % (c["id"], ",".join(hx(s) for s in c["syls"]) or "_", ";".join(samples) or "_",
                                          ",".join(qs) or "_", ",".join(str(l) for l in c["limits"])))
@@ -520,6 +546,14 @@ def run(ctx):
         if ilines != mlines:
             first = next(((a, b2) for a, b2 in zip(ilines, mlines) if a != b2), (ilines[len(mlines):][:1], mlines[len(ilines):][:1]))
             mism.append((c, first))
+        if c.get("merge"):
+            stats["direct_merge_cases"] += 1
+            stats["direct_merge_queries"] += len(d["q"])
+            for k, lst in parse_script(d["script"][1]):
+                for x in lst:
+                    stats["direct_merge_types"][str(x[1])] = stats["direct_merge_types"].get(str(x[1]), 0) + 1
+                    stats["direct_merge_tips"] += 1 if x[3] != "-" else 0
+            continue
         for kkey, what, det in oracle(c, d):
             orac.append((c, kkey, what, det))
         # --- distribution
